@@ -36,6 +36,9 @@ func runC10(c *Ctx) {
 	c.sizeRule("R10.5")
 	c.rule("R10.6", "no library mutex stays locked on any return path (a leaked lock wedges the connection for all later frames)")
 	c.lockLeakRule("R10.6")
+	c.rule("R10.9", "a completion is delivered at most once per in-flight entry (the entry is removed on every path after delivering): a peer repeating a response cannot fill the one-slot mailbox and block the frame executor")
+	c.inflightRemovalRule("R10.9")
+	c.deliveryRules("R10.9", "R10.9")
 	c.rule("R10.8", "every index into the bytes of the request body is guarded by a non-empty test of that same buffer")
 	c.bodyBytesIndexRule("R10.8")
 	c.rule("R10.7", "the read cycle never stalls: once the loop has taken a message from the socket reader, every path back to its select restarts the reader, signals loss or redials")
